@@ -44,6 +44,7 @@ func main() {
 		kong.UsageOnError(),
 		kongutil.OutputFileMapper,
 		kongutil.BinSizeMapper,
+		kongutil.ExistingDirMapper,
 	)
 	ctx, err := k.Parse(translateArgs(os.Args[1:]))
 	k.FatalIfErrorf(err)
